@@ -31,9 +31,9 @@ Import ListNotations. Open Scope Z_scope.
 
 # ------------------------------------------------------------------ schema (mirrors test/dataset classes)
 CLS = {"Position": 1, "Position4D": 2, "Orientation": 3, "Pose": 4, "Body": 5, "Handle": 6, "Container": 7,
-       "Connection": 8, "FixedConnection": 9, "PrismaticConnection": 10, "World": 11, "WorldEntity": 12}
+       "Connection": 8, "FixedConnection": 9, "PrismaticConnection": 10, "World": 11, "WorldEntity": 12, "Atom": 13}
 ATTR = {"name": 1, "id_": 2, "x": 3, "y": 4, "z": 5, "w": 6, "position": 7, "orientation": 8, "size": 9,
-        "parent": 10, "child": 11, "world": 12, "id": 13}
+        "parent": 10, "child": 11, "world": 12, "id": 13, "element": 14, "type": 15, "charge": 16}
 PARENT = {"Position4D": "Position", "Handle": "Body", "Container": "Body", "FixedConnection": "Connection",
           "PrismaticConnection": "Connection", "Body": "WorldEntity", "Connection": "WorldEntity"}
 # field -> "int" | "str" | ("rel", target)         (all mapped to-one fields, inherited ones included)
@@ -46,6 +46,7 @@ FIELDS: Dict[str, Dict[str, Any]] = {
     "Body": _BODY, "Handle": _BODY, "Container": _BODY,
     "Connection": _CONN, "FixedConnection": _CONN, "PrismaticConnection": _CONN,
     "World": {"id": "int"}, "WorldEntity": {"world": ("rel", "World")},
+    "Atom": {"element": "enum", "type": "int", "charge": "int"},       # element: Enum column (a String subclass in SQLAlchemy)
 }
 NULLABLE = {("Orientation", "w"), ("Body", "world"), ("Handle", "world"), ("Container", "world"),
             ("Connection", "world"), ("FixedConnection", "world"), ("PrismaticConnection", "world")}
@@ -96,6 +97,8 @@ def gen_world(rng: core.Rng, nulls: bool) -> List[dict]:
            for _ in range(rng.randint(2, 4))]
     for _ in range(rng.randint(2, 5)):
         add("Pose", {"position": {"ref": rng.choice(pos)}, "orientation": {"ref": rng.choice(ori)}})
+    for _ in range(rng.randint(2, 4)):
+        add("Atom", {"element": {"enum": rng.choice(["C", "H"])}, "type": rng.randint(0, 3), "charge": rng.randint(0, 3)})
     worlds = [add("World", {"id": rng.randint(0, 3)}) for _ in range(rng.randint(1, 2))]
     bodies = []
     for _ in range(rng.randint(2, 5)):
@@ -176,6 +179,8 @@ class LiveWorld:
 
         def ref(v):
             return None if v is None else self.objs[v["ref"]]
+        if c == "Atom":
+            return K(_NS["Element"][f["element"]["enum"]], f["type"], f["charge"])
         if c in ("Position",):
             return K(f["x"], f["y"], f["z"])
         if c in ("Position4D", "Orientation"):
@@ -207,7 +212,7 @@ def _imports():
     import test.dataset.example_classes as ex
     import test.dataset.semantic_world_like_classes as sw
     import test.dataset.ormatic_interface as oi
-    for n in ("Position", "Position4D", "Orientation", "Pose"):
+    for n in ("Position", "Position4D", "Orientation", "Pose", "Atom", "Element"):
         _NS[n] = getattr(ex, n)
     for n in ("Body", "Handle", "Container", "Connection", "FixedConnection", "PrismaticConnection", "World"):
         _NS[n] = getattr(sw, n)
@@ -228,6 +233,8 @@ def val_term(v, keys: Optional[List[int]] = None) -> str:
         return f"VInt {core.zlit(v)}"
     if isinstance(v, str):
         return f"VStr {zs(v)}"
+    if isinstance(v, dict) and "enum" in v:
+        return "VStr (0 :: " + zs(v["enum"]) + ")"           # an Enum member: marker 0, then the stored name
     if isinstance(v, dict):
         return f"VRef {keys[v['ref']]}"
     raise TypeError(v)
@@ -316,10 +323,12 @@ def build_query(q: dict, lw: LiveWorld):
             for n in x[2]:
                 e = getattr(e, n)
             return e
+        def pv(v):
+            return _NS["Element"][v["enum"]] if isinstance(v, dict) and "enum" in v else v
         if k == "lit":
-            return x[1]
+            return pv(x[1])
         if k == "list":
-            return list(x[1])
+            return [pv(v) for v in x[1]]
         if k == "var":
             return vs[x[1]]
         raise ValueError(x)
@@ -343,7 +352,8 @@ def build_query(q: dict, lw: LiveWorld):
         if k == "truth":
             return ex(c[1])
         if k == "inset":
-            return in_(ex(c[2]), frozenset(c[1]) if len(c[1]) % 2 else set(c[1]))
+            vals = [_NS["Element"][v["enum"]] if isinstance(v, dict) else v for v in c[1]]
+            return in_(ex(c[2]), frozenset(vals) if len(vals) % 2 else set(vals))
         raise ValueError(c)
     quant = the if q["the"] else an
     sel = vs[q["sel"]]
@@ -410,9 +420,9 @@ def run_sql(q: dict, lw: LiveWorld) -> Tuple[list, str]:
 # ------------------------------------------------------------------ generator
 VARS = {"Position": ("p", "q"), "Position4D": ("p4", "q4"), "Orientation": ("o", "o2"), "Pose": ("s", "t"),
         "Body": ("b", "b2"), "Handle": ("h", "h2"), "Connection": ("c", "d"), "FixedConnection": ("f", "f2"),
-        "PrismaticConnection": ("pc", "pc2")}
+        "PrismaticConnection": ("pc", "pc2"), "Atom": ("a", "a2")}
 SEL_WEIGHT = ["Position"] * 3 + ["Pose"] * 4 + ["Connection"] * 3 + ["Body"] * 2 + ["Orientation", "Position4D", "Handle",
-                                                                                  "FixedConnection", "PrismaticConnection"]
+                                                                                  "FixedConnection", "PrismaticConnection", "Atom", "Atom"]
 
 
 def chains(c: str, depth=0) -> List[Tuple[List[str], Any]]:
@@ -467,7 +477,13 @@ def gen_query(rng: core.Rng, spec: List[dict], mode: str) -> dict:
     def lit(k):
         if wild and rng.chance(0.04):
             return None
+        if k == "enum":
+            return {"enum": rng.choice(["C", "H"])}
         return rng.randint(0, 3) if k == "int" else rng.choice(STRS)
+
+    def ops_for(k):
+        # Enum members have no order in Python: ordering them is generated only outside the F07 mode (open finding C07-o)
+        return ["==", "!="] if k == "enum" and not (wild and rng.chance(0.3)) else list(OPS)
 
     def atom():
         r = rng.random()
@@ -485,11 +501,11 @@ def gen_query(rng: core.Rng, spec: List[dict], mode: str) -> dict:
         if r < 0.10:
             return ["cmp", rng.choice(["==", "!="]), a, ["lit", None]]
         if r < 0.50:
-            return ["cmp", rng.choice(list(OPS)), a, ["lit", lit(k)]]
+            return ["cmp", rng.choice(ops_for(k)), a, ["lit", lit(k)]]
         if r < 0.66:
             b, _ = attr(k)
             if b is not None:
-                return ["cmp", rng.choice(list(OPS)), a, b]
+                return ["cmp", rng.choice(ops_for(k)), a, b]
         if r < 0.82:
             return ["in", ["list", [lit(k) for _ in range(rng.randint(0, 3))]], a]
         if wild:
@@ -500,7 +516,7 @@ def gen_query(rng: core.Rng, spec: List[dict], mode: str) -> dict:
                 return ["in", ["lit", rng.choice(["Body1xx", "abcABC", "xBox"])], a]                 # in_(col, 'hay') -> instr
             if r3 < 0.7:
                 return ["truth", a]
-            if r3 < 0.76 and a[1] == sel:
+            if r3 < 0.76 and a[1] == sel and k != "enum":
                 return ["inset", sorted({lit(k) if lit(k) is not None else 0 for _ in range(rng.randint(1, 3))}, key=str), a]
             if r3 < 0.86 and sel_c in ("Connection", "FixedConnection", "PrismaticConnection") and a[1] == sel and any(o["c"] in ("Body", "Handle", "Container") for o in spec):
                 vars_["b"] = "Body"
@@ -510,7 +526,7 @@ def gen_query(rng: core.Rng, spec: List[dict], mode: str) -> dict:
                 pv = "p"
                 vars_[pv] = "Position"
                 return ["cmp", "==", ["attr", sel, ["position"]], ["var", pv]]
-        return ["cmp", rng.choice(list(OPS)), a, ["lit", lit(k)]]
+        return ["cmp", rng.choice(ops_for(k)), a, ["lit", lit(k)]]
 
     def cond(d):
         r = rng.random()
@@ -561,17 +577,22 @@ def sweep_queries(full: bool) -> List[dict]:
     out = []
     for sel_c, (sel, _) in VARS.items():
         cs = [x for x in chains(sel_c) if isinstance(x[1], str)]
-        lits = {"int": [0, 1, 2, 3] if full else [1], "str": ["abc", "Body1", ""] if full else ["abc"]}
+        lits = {"int": [0, 1, 2, 3] if full else [1], "str": ["abc", "Body1", ""] if full else ["abc"],
+                "enum": [{"enum": "C"}, {"enum": "H"}] if full else [{"enum": "C"}]}
         atoms = []
         for ch, k in cs:
-            for op in OPS:
+            out.append({"the": False, "sel": sel, "vars": {sel: sel_c}, "cond": ["truth", ["attr", sel, ch]]})       # the column as condition
+            for op in (OPS if k != "enum" else ("==", "!=")):
                 for v in lits[k]:
                     out.append({"the": False, "sel": sel, "vars": {sel: sel_c}, "cond": ["cmp", op, ["attr", sel, ch], ["lit", v]]})
                 for ch2, k2 in cs:
                     if k2 == k and (full or ch2 != ch):
                         out.append({"the": False, "sel": sel, "vars": {sel: sel_c},
                                     "cond": ["cmp", op, ["attr", sel, ch], ["attr", sel, ch2]]})
-            atoms.append(["cmp", "<=" if k == "int" else ">=", ["attr", sel, ch], ["lit", lits[k][0] if not full else (1 if k == "int" else "abc")]])
+            atoms.append(["cmp", "<=" if k == "int" else ("==" if k == "enum" else ">="), ["attr", sel, ch],
+                          ["lit", lits[k][0] if (not full or k == "enum") else (1 if k == "int" else "abc")]] if k != "enum" or True else None)
+            if k == "enum":
+                atoms.append(["truth", ["attr", sel, ch]])
             out.append({"the": False, "sel": sel, "vars": {sel: sel_c}, "cond": ["in", ["list", lits[k][:2]], ["attr", sel, ch]]})
             out.append({"the": True, "sel": sel, "vars": {sel: sel_c}, "cond": ["cmp", "==", ["attr", sel, ch], ["lit", lits[k][0]]]})
         if full:
@@ -587,8 +608,8 @@ def sweep_queries(full: bool) -> List[dict]:
 # The others were repaired by fix: commits (now rejections) -- a difference explained only by them is a VIOLATION.
 ALL_BITS = {1: "K_othervar", 2: "K_null", 4: "K_relop", 16: "K_strop", 32: "K_varoperand", 64: "K_noneorder",
             128: "K_strtruth", 256: "K_eqjoin_dropped", 512: "K_valueeq", 1024: "K_or_join", 2048: "K_setof",
-            4096: "K_setlit", 8192: "K_namedvar"}
-OPEN_BITS = {2: "K_null", 512: "K_valueeq"}
+            4096: "K_setlit", 8192: "K_namedvar", 16384: "K_enumorder"}
+OPEN_BITS = {2: "K_null", 512: "K_valueeq", 16384: "K_enumorder"}
 KNOWN_BITS = OPEN_BITS
 
 
